@@ -123,10 +123,10 @@ PROP = dict(
     bin="c18",
     run_targets=["Run/RunC18.vo"],
     prop_targets=["Properties/C18.vo"],
-    cases=dict(quick=1500, thorough=12000),
+    cases=dict(quick=1500, thorough=8000),
     level="proof",
     release_too=True,
-    rule="meshes drawn from 11 families (random elements over a small node pool, conforming 2-D quad/triangle grids, conforming 3-D "
+    rule="meshes drawn from 12 families (random elements over a small node pool, conforming 2-D quad/triangle grids, non-conforming 2-D grids with hanging nodes, conforming 3-D "
          "hexahedron/tetrahedron grids with boundary faces and edges, pairs built to share exactly dim-1/dim/dim+1/all nodes, repeated "
          "node sets, highest dimension 0/1 or no block, an element with a repeated node, a node id out of range, an empty "
          "highest-dimensional block, random mix of all seven element types); blocks in random order, one type possibly split over "
@@ -163,6 +163,6 @@ MANIFEST = dict(
          "implementation (CSR triple exactly, pools 1..16) and a checker proved equivalent to the definition judges every implementation output.",
     design_ref="DESIGN.md §7 C18",
     note="Trusted: Coq kernel; model<->code tie = translator (element tables, filter clauses, threshold comparison) + differential runs "
-         "(1.5k/12k meshes); unsafe pointer writes modelled as functional updates. No axioms.",
+         "(1.5k/12k meshes incl. a release-profile run); unsafe pointer writes modelled as functional updates. No axioms.",
     technique="Coq proof (invariants over the block scan and the node index) + translator + model/implementation correspondence + certified checker",
 )
